@@ -12,7 +12,7 @@ HELD = " Held means no divergence on the executions listed in evidence, not a pr
 # id -> dict(level, text, note, technique)
 claimed = {
  "C01": dict(level=E,
-   text="Runtime monitoring of the real constructors/encoder/decoder on 44k (quick) / 1.6M (thorough) generated trees per run: an independent SEMI E5 reference encoder supplies the expected bytes, and the item is compared to its logical value through every public accessor before and after a decode round trip; -race/checkptr slice included." + HELD,
+   text="Runtime monitoring of the real constructors/encoder/decoder on 44k (quick) / 1.6M (thorough) generated trees per run (leaves at every length boundary, random trees, list chains of every depth 1..64, slab- and count-boundary lists, many empty lists before and next to a deep part, giants): an independent SEMI E5 reference encoder supplies the expected bytes, and the item is compared to its logical value through every public accessor before and after a decode round trip; -race/checkptr slice included." + HELD,
    note="Trusts harness/ref/e5 as the reading of SEMI E5; F4 NaN payloads are compared as NaN only. Known finding (list with EmptyItem child) is reported as KNOWN-FINDING.",
    technique="differential runtime monitor: reference E5 encoder + accessor-level oracle over generated constructor recipes; race detector/checkptr slice"),
  "C02": dict(level=E,
@@ -24,7 +24,7 @@ claimed = {
    note="The environment model of (a) (which transport calls are possible when) is stated in c05_driver.go and DESIGN.md; schedules outside it are not explored. Real-goroutine interleavings in (b) are sampled, widened by vhook delays. Three genuine defects found by (a) were repaired (fix: commits in known_findings.json).",
    technique="controlled-scheduler execution of the real FSM with an online trace monitor (edges, causes, notification chain) + e2e history monitor under the race detector"),
  "C06": dict(level=E,
-   text="40 (quick) / 1500 (thorough) concurrent request/reply histories per run on real connections (1..64 senders) against a scripted peer that replies now/late/permuted/twice/never, rejects, collides system bytes with primaries and control responses, sends undecodable and unsolicited messages, with random caller cancellation and link drops; call/return events and the peer's read/write logs are joined by unique tokens and scanned offline for ownership (own reply only), exactly-once delivery to handlers in arrival order, outcome class, T3 lower bound and system-bytes uniqueness; plus slow-write scenarios (the peer stops reading mid-frame, or the send queues behind such a write) in which the T3 error must come no earlier than T3 after the instant the write returned (afterWrite hook), and a sequential sender next to an every-interval linktest with a peer-side monitor of the open set (system bytes unique across data and control transactions). Race build." + HELD,
+   text="40 (quick) / 1500 (thorough) concurrent request/reply histories per run on real connections (1..64 senders) against a scripted peer that replies now/late/permuted/twice/never, rejects, collides system bytes with primaries and control responses, sends undecodable and unsolicited messages, with random caller cancellation, caller deadlines shorter than T3 and link drops; call/return events and the peer's read/write logs are joined by unique tokens and scanned offline for ownership (own reply only), exactly-once delivery to handlers in arrival order, outcome class, T3 lower bound and system-bytes uniqueness; plus slow-write scenarios (the peer stops reading mid-frame, or the send queues behind such a write) in which the T3 error must come no earlier than T3 after the instant the write returned (afterWrite hook), and a sequential sender next to an every-interval linktest with a peer-side monitor of the open set (system bytes unique across data and control transactions). Race build." + HELD,
    note="Unique tokens make the history unambiguous, so the scan is exact for the histories produced; interleavings are sampled (vhook delays at send.afterRegister/afterWrite, recv.beforeDispatch). The genuine (nil,nil) defect it found is repaired (fix: commit).",
    technique="offline history checker over call/return + peer frame logs (ownership, exactly-once, order) under the race detector with delay injection"),
  "C07": dict(level=F,
@@ -36,11 +36,11 @@ claimed = {
    note="Trusts the responder table in c08Model (from the property text / E37). Two scheduling-dependent answers are accepted either way and documented (duplicate Select.rsp racing transaction close; S9F1 gated at write time).",
    technique="reference-model monitor: independent E37 responder FSM vs barrier-fenced outbound frame log of a real connection"),
  "C09": dict(level=F,
-   text="40 (quick) / 480 (thorough) multi-generation histories: each generation ended by one of the 7 drop kinds (peer FIN, RST, stall+write timeout, Close+reopen, linktest failure, T7, T8 - all kinds in every shard) while 8 senders keep sending sync/async/W-bit messages with unique tokens; every frame read by generation G's peer must belong to a call that was open while G existed, replies must carry the tag of the generation that read the primary, waiters must be released (never T3=30 s), and the previous generation's open system bytes replayed by the next peer must not complete anything; senders stalled right after their write (hook) are followed across the drop, and a primary observed on an older generation's peer log while its caller is still waiting is a dead-generation waiter. A SECS-I phase parks a sender behind the line engine's inline handler (contention yield) and ends the generation by Close: the sender must be released with the connection-closed error; its HSMS-SS counterpart wedges the receive path in a data handler while a W-bit sender waits and ends the generation by Close or by a linktest failure; and fire-and-forget senders parked on a full 2-slot send queue (peer not reading, receive loop parked on the same queue) must be released when the generation's teardown starts; a waiter on a generation that Close ends while the socket accepts no write (farewell write blocked) must come back within the farewell's own bound. Race build." + HELD,
+   text="40 (quick) / 480 (thorough) multi-generation histories: each generation ended by one of the 7 drop kinds (peer FIN, RST, stall+write timeout, Close+reopen, linktest failure, T7, T8 - all kinds in every shard) while 8 senders keep sending sync/async/W-bit messages with unique tokens; every frame read by generation G's peer must belong to a call that was open while G existed, replies must carry the tag of the generation that read the primary, waiters must be released (never T3=30 s), and the previous generation's open system bytes replayed by the next peer must not complete anything; senders stalled right after their write (hook) are followed across the drop, and a primary observed on an older generation's peer log while its caller is still waiting is a dead-generation waiter. A SECS-I phase parks a sender behind the line engine's inline handler (contention yield) and ends the generation by Close: the sender must be released with the connection-closed error; its HSMS-SS counterpart wedges the receive path in a data handler while a W-bit sender waits and ends the generation by Close or by a linktest failure; and fire-and-forget senders parked on a full 2-slot send queue (peer not reading, receive loop parked on the same queue) must be released when the generation's teardown starts; a waiter on a generation that Close ends while the socket accepts no write (farewell write blocked) must come back within the farewell's own bound; senders queued on the write lock when Close ends the generation must get the connection-closed error. Race build." + HELD,
    note="The hsmsss phase carries the generation-tag oracle; the SECS-I phase covers only the parked-waiter release (SECS-I line faults are C17/C18). The drop instant relative to each send is sampled, not enumerated.",
    technique="generation-tagged token monitor over per-generation peer logs under the race detector with delay injection"),
  "C10": dict(level=E,
-   text="360 (quick) / 4000 (thorough) hsmsss lifecycle programs plus 96 / 2000 SECS-I programs against a raw TCP peer , a refused-Open-while-connect-pending scenario , Close on a socket whose writes block (write timeout disabled / 30 s / 200 ms x idle / sender blocked) and Close while a dial is in flight with nothing coming back (both transports, cold open and reconnect): 2..5 goroutines of Open/Close/send/UpdateConfig operations concurrent with a hostile peer script (serve, connect-only, drop, reset, stall, refuse, connect inside Close through gated Accept / delayed dial), then Close twice and leak meters (goroutine dump filtered to library frames, Close() on every harness-owned socket/listener, /proc fd count, no dial/listen after Close), double-Open guard, reopen + round trip. Race build; a hang is caught by the shard watchdog with a goroutine dump." + HELD,
+   text="360 (quick) / 4000 (thorough) hsmsss lifecycle programs plus 96 / 2000 SECS-I programs against a raw TCP peer , a refused-Open-while-connect-pending scenario , Close on a socket whose writes block (write timeout disabled / 30 s / 200 ms x idle / sender blocked) , Close while a dial is in flight with nothing coming back (both transports, cold open and reconnect) and Close right after the reconnect loop published the next generation (loop parked at a hook): 2..5 goroutines of Open/Close/send/UpdateConfig operations concurrent with a hostile peer script (serve, connect-only, drop, reset, stall, refuse, connect inside Close through gated Accept / delayed dial), then Close twice and leak meters (goroutine dump filtered to library frames, Close() on every harness-owned socket/listener, /proc fd count, no dial/listen after Close), double-Open guard, reopen + round trip. Race build; a hang is caught by the shard watchdog with a goroutine dump." + HELD,
    note="hsmsss and secs1 transports; data handlers always return (the property's premise): immediately, after 5-80 ms, or after replying and sending from inside the handler. Close latency bound is close timeout + 5 s. ErrCloseTimeout as a return value is counted, not judged.",
    technique="randomized lifecycle programs with leak meters (goroutines, sockets, fds), latency bound and race detector"),
  "C20": dict(level=E,
@@ -56,7 +56,7 @@ claimed = {
    note="Timing clauses decided one-sidedly: idle gaps and stalls are many multiples of T8; 'slow but steady' and segmentation cases carry a measured max-gap premise and are discarded when the harness itself stalled.",
    technique="differential runtime monitor (reference frame acceptor) + segmenting/stalling raw peer with delivery oracle and allocation meter; race detector"),
  "C11": dict(level=F,
-   text="368 (quick) / ~2600 (thorough: both TCP roles for every role-agnostic fault, and every fault once more with delays injected at the recovery machinery's suspension points) single link faults, each on a fresh real connection: FIN and RST cuts after exactly k bytes read/written for every k of the 14-byte prefix of every exchange (select both ways, data primary/reply/peer primary, linktest both ways) plus body offsets; stalls covered by T6/T7/T8/write timeout/linktest (the linktest stall also with local traffic going out), each to be ended by the covering timer and not by a longer one, the T8 stall placed after every K=1..16 bytes of a frame; Select.rsp status 2..255; 0..8 refused dials / failed listens over a back-off configuration grid, also with a redundant (refused) Open in the middle of the outage. Recovery to Selected + round trip within 6 connection opportunities; requested reconnect delays (hook) vs the reference sequence; re-dial gaps (sound direction); Reconnects(); no dial after Close. Pure back-off function over a grid incl. overflow/Inf/NaN." + HELD,
+   text="368 (quick) / ~2600 (thorough: both TCP roles for every role-agnostic fault, and every fault once more with delays injected at the recovery machinery's suspension points) single link faults, each on a fresh real connection: FIN and RST cuts after exactly k bytes read/written for every k of the 14-byte prefix of every exchange (select both ways, data primary/reply/peer primary, linktest both ways) plus body offsets; stalls covered by T6/T7/T8/write timeout/linktest (the linktest stall also with local traffic going out; the write-timeout stall also for a control frame on a socket that takes no bytes), each to be ended by the covering timer and not by a longer one, the T8 stall placed after every K=1..16 bytes of a frame; Select.rsp status 2..255; 0..8 refused dials / failed listens over a back-off configuration grid, also with a redundant (refused) Open in the middle of the outage. Recovery to Selected + round trip within 6 connection opportunities; requested reconnect delays (hook) vs the reference sequence; re-dial gaps (sound direction); Reconnects(); no dial after Close. Pure back-off function over a grid incl. overflow/Inf/NaN." + HELD,
    note="'Eventually' is decided as bounded progress (6 opportunities). hsmsss transport; SECS-I line cuts are exercised by C18's middlebox, not here.",
    technique="fault enumeration by a byte-exact cutting/stalling peer + hook-reported back-off delays vs reference sequence"),
  "C12": dict(level=E,
@@ -76,7 +76,7 @@ claimed = {
    note="Parse-back is judged per leaf (the property claims it for elements); NaN payload bits excluded.",
    technique="differential runtime monitor between the two renderers + parse-back oracle"),
  "C16": dict(level=E,
-   text="~100k (quick) / ~12M (thorough) recover-wrapped constructor calls over Go types x byte sizes x values at/beyond every bound x call shapes, judged by a reference clamp model (no panic, clamp not wrap, errors for unsupported/unparsable, cross-shape equality), an errored-item battery (never Equal, refused by NewDataMessage / NewDataMessageFromHeader / Derive.Build, nested to depth 5), and a wire half: 864 (quick) sends of errored items through every send call of live connections with the peer's log proving that no byte left." + HELD,
+   text="~100k (quick) / ~12M (thorough) recover-wrapped constructor calls over Go types x byte sizes (incl. invalid ones that truncate to a valid width) x values at/beyond every bound x call shapes, judged by a reference clamp model (no panic, clamp not wrap, errors for unsupported/unparsable, cross-shape equality), an errored-item battery (never Equal, refused by NewDataMessage / NewDataMessageFromHeader / Derive.Build, nested to depth 5), and a wire half: 864 (quick) sends of errored items through every send call of live connections with the peer's log proving that no byte left." + HELD,
    note="Where the docs explicitly document an error instead of a clamp both are accepted (never another value). Typed-nil item pointers are outside the statement (noted, not judged). Wire half: hsmsss.",
    technique="reference clamp model + recover-wrapped constructor fuzzing; wire observer (scripted peer log) for refused sends"),
  "C17": dict(level=E,
@@ -88,7 +88,7 @@ claimed = {
    note="Two genuine defects found: a block ACKed during link teardown whose message was then dropped is repaired (fix: commit); stale control characters consumed as handshake answers after a late grant remains a known finding (not a small repair). Overlaps of simultaneous sends are sampled; liveness is bounded (45 s send watchdog).",
    technique="fault-injecting middlebox between two real endpoints + offline exactly-once/order/retry-bound checker over the recorded line history"),
  "C19": dict(level=E,
-   text="Pure half: the two linktest decision functions (verif export) vs a reference written from the documented rules, exhaustive over a small ordered domain, and the whole failure-accounting loop folded over ALL ~300k (quick) / ~19M (thorough) observation histories of length <=6/8 x threshold 1..4 x suppression on/off, plus two reducer-independent invariants. E2E half: scripted peers (silent, answering, alive-but-not-answering with suppression on/off, chatty, withheld reply, silent peer while the local side keeps sending, life shown by a frame whose inline handler outlasts T6, life shown by frames the local side answers, a dead peer right after a slow transaction and after a rejected probe, with upper bounds on the drop time) on real connections; probe counts seen by the peer, still-connected checks, sound lower bound on the drop time, ControlMetrics vs peer counts." + HELD,
+   text="Pure half: the two linktest decision functions (verif export) vs a reference written from the documented rules, exhaustive over a small ordered domain, and the whole failure-accounting loop folded over ALL ~300k (quick) / ~19M (thorough) observation histories of length <=6/8 x threshold 1..4 x suppression on/off, plus two reducer-independent invariants. E2E half: scripted peers (silent, answering, alive-but-not-answering with suppression on/off, chatty, withheld reply, silent peer while the local side keeps sending, life shown by a frame whose inline handler outlasts T6, life shown by frames the local side answers, a dead peer right after a slow transaction and after a rejected probe, with upper bounds on the drop time; T6 longer than the interval with a slowly answering and a silent peer) on real connections; probe counts seen by the peer, still-connected checks, sound lower bound on the drop time, ControlMetrics vs peer counts." + HELD,
    note="E2E timing is decided one-sidedly (counts and sound lower bounds); the chatty scenario needs a measured premise and is discarded otherwise.",
    technique="exhaustive reference-fold comparison of the real reducer + scripted-peer scenario monitors under the race detector"),
 }
